@@ -11,4 +11,6 @@ def replay(data):
     if str(data.get("obligation", "")).startswith("regex:"):
         from . import regexsec
         return regexsec.replay("C03", data)
+    if lexeme.is_lexer_record(data):
+        return lexeme.replay_lexer("C03", data)
     return drv.replay(data)
